@@ -715,6 +715,51 @@ func splitTakeLines(args []string) (lines [][]string, rest []string) {
 	return lines, rest
 }
 
+// splitConnArgs encodes the 005 lines of a previous connection of the same client (none:
+// first connection) and those of the current one.
+func splitConnArgs(prev, cur [][]string) []string {
+	return append(splitLinesArgs(prev), splitLinesArgs(cur)...)
+}
+
+func splitTakeConn(args []string) (prev, cur [][]string, rest []string) {
+	prev, rest = splitTakeLines(args)
+	cur, rest = splitTakeLines(rest)
+	return prev, cur, rest
+}
+
+// splitPrevLines: what an earlier server of the same client object may have advertised
+// (extended line length, other name lengths), so that limits learnt there would show if
+// they survived the reconnect.
+func splitPrevLines(r *rand.Rand) [][]string {
+	t := "are supported by this server"
+	switch r.Intn(5) {
+	case 0:
+		return [][]string{{"me", "LINELEN=2048", t}}
+	case 1:
+		return [][]string{{"me", "LINELEN=" + strconv.Itoa(150+r.Intn(8000)), "NICKLEN=" + strconv.Itoa(1+r.Intn(60)), t}}
+	case 2:
+		return [][]string{{"me", "NICKLEN=" + strconv.Itoa(31+r.Intn(60)), "HOSTLEN=" + strconv.Itoa(64+r.Intn(200)), "USERLEN=" + strconv.Itoa(19+r.Intn(30)), t}}
+	case 3:
+		return [][]string{{"me", "LINELEN=" + strconv.Itoa(120+r.Intn(120)), t}, splitISupportLine(r)}
+	default:
+		var lines [][]string
+		for k := 1 + r.Intn(3); k > 0; k-- {
+			lines = append(lines, splitISupportLine(r))
+		}
+		return lines
+	}
+}
+
+// splitFreshLimits: the limits of a brand-new client that is told only `cur`: what the
+// statement derives MaxEventLength from ("the server's advertised line length ..." — this
+// server's, not an earlier one's).
+func splitFreshLimits(cur [][]string) (line, prefix, mel int) {
+	cl := girc.New(drive.BaseConfig())
+	splitFeedLines(cl, cur)
+	line, prefix = cl.VerifLimits()
+	return line, prefix, cl.MaxEventLength()
+}
+
 func splitFeedLines(c *girc.Client, lines [][]string) {
 	for _, l := range lines {
 		c.RunHandlers(&girc.Event{Command: "005", Params: append([]string(nil), l...), Timestamp: time.Now()})
@@ -779,9 +824,17 @@ func init() {
 		Name: "split.limit",
 		Prop: []string{"C11"},
 		Fixed: func() []Case {
-			mk := func(lines ...[]string) Case { return Case(splitLinesArgs(lines)) }
+			mk := func(lines ...[]string) Case { return Case(splitConnArgs(nil, lines)) }
+			re := func(prev [][]string, cur ...[]string) Case { return Case(splitConnArgs(prev, cur)) }
 			t := "are supported by this server"
+			ext := [][]string{{"me", "LINELEN=2048", t}}
+			names := [][]string{{"me", "NICKLEN=60", "USERLEN=40", "HOSTLEN=200", t}}
 			return []Case{
+				// reconnects: what an earlier server advertised must not survive
+				re(ext), re(names), re(ext, []string{"me", "NICKLEN=20", t}), re(names, []string{"me", "LINELEN=1024", t}),
+				re(ext, []string{"me", "LINELEN=100", "NICKLEN=50", t}), // give-up path of this connection
+				re([][]string{{"me", "LINELEN=200", "NICKLEN=9", t}}, []string{"me", "CHANTYPES=#", t}),
+				re(ext, []string{"me", "LINELEN=2048", t}),
 				mk(),
 				mk([]string{"me", "LINELEN=1024", t}),
 				mk([]string{"me", "LINELEN=512", t}),
@@ -798,19 +851,36 @@ func init() {
 			}
 		},
 		Gen: func(r *rand.Rand) Case {
-			var lines [][]string
+			var prev, lines [][]string
+			if r.Intn(3) == 0 {
+				prev = splitPrevLines(r)
+			}
 			for k := r.Intn(5); k > 0; k-- {
 				lines = append(lines, splitISupportLine(r))
 			}
-			return Case(splitLinesArgs(lines))
+			return Case(splitConnArgs(prev, lines))
 		},
-		Run: func(c Case) Result {
-			lines, _ := splitTakeLines(c)
+		Run: func(c Case) (res Result) {
+			// one client object: an earlier connection (its 005 lines), then what
+			// internalConnect does before every connection, then this connection's lines
+			prev, lines, _ := splitTakeConn(c)
 			cfg := drive.BaseConfig()
 			cl := girc.New(cfg)
+			splitFeedLines(cl, prev)
+			cl.VerifResetState()
 			splitFeedLines(cl, lines)
 			line, prefix := cl.VerifLimits()
-			res := Result{Obs: fmt.Sprintf("%d,%d,%d", line, prefix, cl.MaxEventLength())}
+			res = Result{Obs: fmt.Sprintf("%d,%d,%d", line, prefix, cl.MaxEventLength())}
+			defer func() {
+				if len(prev) > 0 {
+					res.Sig += "/reconnect"
+				}
+				// what an earlier server said must be gone: same limits as a brand-new client
+				// that is told this connection's lines only
+				if fl, fp, fm := splitFreshLimits(lines); fl != line || fp != prefix || fm != cl.MaxEventLength() {
+					res.Oracle = fmt.Sprintf("limit-stale: after a reconnect the limits are line %d, prefix %d (MaxEventLength %d); this server's 005 lines alone give %d, %d (%d)", line, prefix, cl.MaxEventLength(), fl, fp, fm)
+				}
+			}()
 			switch {
 			case line == 510 && prefix == 115:
 				res.Sig = "default"
@@ -1015,14 +1085,23 @@ func splitRunWire(c Case) Result {
 		return Result{Obs: "?bad-args"}
 	}
 	op := c[0]
-	lines, rest := splitTakeLines(c[1:])
+	prev, lines, rest := splitTakeConn(c[1:])
 	x := splitSession()
 	splitSessMu.Lock()
 	defer splitSessMu.Unlock()
 	cl := x.s.C
+	// The session is shared by all cases. Bring the limits to their defaults by what a
+	// server can say (so that a case never depends on the case before it, whatever reset
+	// does), then: previous connection's lines, the reset internalConnect performs, this
+	// connection's lines.
+	cl.VerifResetState()
+	splitFeedLines(cl, [][]string{{"me", "LINELEN=512", "NICKLEN=30", "USERLEN=18", "HOSTLEN=63", "are supported by this server"}})
+	cl.VerifResetState()
+	splitFeedLines(cl, prev)
 	cl.VerifResetState()
 	splitFeedLines(cl, lines)
 	mel := cl.MaxEventLength()
+	_, _, want := splitFreshLimits(lines)
 	mark := x.s.Mark()
 	switch op {
 	case "join":
@@ -1053,7 +1132,14 @@ func splitRunWire(c Case) Result {
 			break
 		}
 	}
-	res.Oracle = splitWireOracle(op, mel, rest, wrote)
+	if len(prev) > 0 {
+		res.Sig += "/reconnect"
+	}
+	// the lines are judged against the limit of THIS connection
+	res.Oracle = splitWireOracle(op, want, rest, wrote)
+	if res.Oracle == "" && mel != want {
+		res.Oracle = fmt.Sprintf("limit-stale: MaxEventLength is %d after the reconnect, this server's 005 lines give %d", mel, want)
+	}
 	return res
 }
 
@@ -1064,11 +1150,18 @@ func init() {
 		Prop: []string{"C11"},
 		Fixed: func() []Case {
 			mk := func(op string, lines [][]string, rest ...string) Case {
-				return append(append(Case{op}, splitLinesArgs(lines)...), rest...)
+				return append(append(Case{op}, splitConnArgs(nil, lines)...), rest...)
 			}
 			small := [][]string{{"me", "LINELEN=137", t}} // MaxEventLength 20
 			var out []Case
 			for _, op := range []string{"join", "list"} {
+				// reconnect: the earlier server allowed 2048-byte lines, this one says nothing
+				many := Case{op}
+				many = append(many, splitConnArgs([][]string{{"me", "LINELEN=2048", t}}, nil)...)
+				for i := 0; i < 60; i++ {
+					many = append(many, "#channel-"+strconv.Itoa(1000+i))
+				}
+				out = append(out, many)
 				out = append(out,
 					mk(op, nil),
 					mk(op, nil, "#a"),
@@ -1093,7 +1186,11 @@ func init() {
 					mel = l - 2 - 115
 				}
 			}
-			c := append(Case{Pick(r, "join", "join", "list")}, splitLinesArgs(lines)...)
+			var prev [][]string
+			if r.Intn(4) == 0 {
+				prev = splitPrevLines(r)
+			}
+			c := append(Case{Pick(r, "join", "join", "list")}, splitConnArgs(prev, lines)...)
 			return append(c, splitChannels(r, mel)...)
 		},
 		Run: splitRunWire,
@@ -1103,12 +1200,20 @@ func init() {
 		Prop: []string{"C11"},
 		Fixed: func() []Case {
 			mk := func(op string, lines [][]string, rest ...string) Case {
-				return append(append(Case{op}, splitLinesArgs(lines)...), rest...)
+				return append(append(Case{op}, splitConnArgs(nil, lines)...), rest...)
+			}
+			re := func(op string, prev, lines [][]string, rest ...string) Case {
+				return append(append(Case{op}, splitConnArgs(prev, lines)...), rest...)
 			}
 			small := [][]string{{"me", "LINELEN=147", t}} // MaxEventLength 30
+			ext := [][]string{{"me", "LINELEN=2048", t}}
 			long := strings.Repeat("lorem ipsum dolor sit amet ", 30)
 			var out []Case
 			for _, op := range []string{"msg", "notice", "action"} {
+				out = append(out,
+					// reconnects: an 810-byte text after a server with 2048-byte lines
+					re(op, ext, nil, "#chan", long), re(op, ext, small, "#chan", long),
+					re(op, [][]string{{"me", "NICKLEN=9", "LINELEN=4096", t}}, [][]string{{"me", "NICKLEN=31", t}}, "#chan", long))
 				out = append(out,
 					mk(op, nil, "#chan", "hello"), mk(op, nil, "#chan", long), mk(op, small, "#chan", long),
 					mk(op, small, "#chan", "aaaa-bbbb cccc:dddd 12:30 100% ab% https://example.com/x/y/z?q=1"),
@@ -1138,7 +1243,11 @@ func init() {
 				lines = [][]string{{"me", "LINELEN=" + strconv.Itoa(117+len("PRIVMSG ")+len(target)+2+room), t}}
 				w = 3
 			}
-			c := append(Case{op}, splitLinesArgs(lines)...)
+			var prev [][]string
+			if r.Intn(4) == 0 {
+				prev = splitPrevLines(r)
+			}
+			c := append(Case{op}, splitConnArgs(prev, lines)...)
 			return append(c, target, splitText(r, w, splitMode(r)))
 		},
 		Run: splitRunWire,
